@@ -22,7 +22,7 @@ REPO = os.environ.get("FORSYS_REPO", "/repo")
 PID = "C05"
 RULE = ("instances = tissue (equilibrium | deformed amp x pattern | scaled | sub-tissue | cell deletions) x rhs (static | velocity) x allow_negatives x method; "
         "non-trivial = at least one junction row and one unknown; classes = (rows, cols, path, rhs, method, active-set size)")
-BOUND = {"quick": "2 bases x {equilibrium, 3 amplitudes x 4 patterns, 2 scales} + all sub-tissues of a 7-cell base + all 1- and 2-cell deletions of an 11-cell base, x 2 rhs x 2 allow_negatives x 3 methods (deviation bound 2 on options, full product on the deformed family)",
+BOUND = {"quick": "2 bases x {equilibrium, 3 amplitudes x 4 patterns, 2 scales} + all sub-tissues of a 7-cell base + all 1- and 2-cell deletions of an 11-cell base, x 2 rhs x 2 allow_negatives x 4 methods x angle limit x options omitted / spelled out at their defaults (deviation bound 2 on options, full product on the deformed family)",
          "thorough": "4 bases, all sub-tissues of an 11-cell base, all 1-,2- and 3-cell deletions, full option product"}
 ASSUMPTIONS = ["KKT tolerance 1e-9 x scale (default path); iterative back-ends: feasible and cost within (1+1e-4) ('lsq') / (1+1e-6) ('lsq_linear') of the certified optimum; scale = max(1,|A|max) x max(1,|b|max)",
                "'lsq_linear' is judged on consistent systems only (as the statement says)",
